@@ -66,7 +66,7 @@ theorem CssRef_lt {text : Bytes} {s : CSt} {k : CssS} (hj : CssRef text s k) (p 
       rcases h4 with rfl | rfl <;> simp [cssStep, cssStr]
     rw [this]; exact ⟨h1, h3, h4⟩
 
-theorem css_lt {U : Unicode} {text : Bytes} {n : Nat} (H : Hole text n) {s : CSt} (hlt : s.pos < n)
+theorem css_lt {U : Unicode} {text : Bytes} {lo n : Nat} (H : Hole text lo n) {s : CSt} (hlt : s.pos < n)
     {k : CssS} {m : Nat} (hc : text[s.pos]? = some 0x3c)
     (hrr : rs text s.pos = .raw (.css k) m) (hm : m ≤ 1) (hm1 : m = 1 → text[s.pos]? ≠ some 0x2f)
     (htc : s.tagCtx = ContextHTML) (hu : s.url = false) (hjc : s.jsComment = 0)
@@ -83,7 +83,7 @@ theorem css_lt {U : Unicode} {text : Bytes} {n : Nat} (H : Hole text n) {s : CSt
     rw [hr1]
     exact R_css (Nat.le_refl _) (fun _ => hne) htc hu hjc (CssRef_lt hj _)
 
-theorem css_tail_free {U : Unicode} {text : Bytes} {n : Nat} (H : Hole text n) {s s1 : CSt} {c : UInt8}
+theorem css_tail_free {U : Unicode} {text : Bytes} {lo n : Nat} (H : Hole text lo n) {s s1 : CSt} {c : UInt8}
     (hlt : s.pos < n) (hc : text[s.pos]? = some c) (hsw : ctxSwitchP U text s c = (s1, true))
     (hpos : s1.pos = s.pos) (htc : s1.tagCtx = ContextHTML) (hu : s1.url = false)
     (hjc : s1.jsComment = 0) {k' : CssS}
@@ -123,7 +123,7 @@ theorem CssRef_plain {text : Bytes} {s : CSt} {k : CssS} (hk : cssPlain k) (hctx
     (hq : s.quote = 0) : CssRef text s k := by
   cases k <;> simp only [cssPlain] at hk <;> exact ⟨hctx, hq⟩
 
-theorem css_code {U : Unicode} {text : Bytes} {n : Nat} (H : Hole text n) {s : CSt} (hlt : s.pos < n)
+theorem css_code {U : Unicode} {text : Bytes} {lo n : Nat} (H : Hole text lo n) {s : CSt} (hlt : s.pos < n)
     {c : UInt8} (hc : text[s.pos]? = some c) (h3c : c ≠ 0x3c)
     (hctx : s.ctx = ContextCSS) (hq : s.quote = 0)
     (htc : s.tagCtx = ContextHTML) (hu : s.url = false) (hjc : s.jsComment = 0) {k : CssS}
@@ -156,7 +156,7 @@ theorem css_code {U : Unicode} {text : Bytes} {n : Nat} (H : Hole text n) {s : C
 
 /-! ## strings -/
 
-theorem css_string {U : Unicode} {text : Bytes} {n : Nat} (H : Hole text n) {s : CSt} (hlt : s.pos < n)
+theorem css_string {U : Unicode} {text : Bytes} {lo n : Nat} (H : Hole text lo n) {s : CSt} (hlt : s.pos < n)
     {c : UInt8} (hc : text[s.pos]? = some c) (h3c : c ≠ 0x3c)
     (hctx : s.ctx = ContextCSSString) (hjc : s.jsComment = 0) {q : UInt8} (hq : s.quote = q)
     (hqq : q = 0x22 ∨ q = 0x27) (htc : s.tagCtx = ContextHTML) (hu : s.url = false) {k : CssS}
@@ -233,7 +233,7 @@ theorem css_string {U : Unicode} {text : Bytes} {n : Nat} (H : Hole text n) {s :
 
 /-! ## one step inside a style element -/
 
-theorem step_css {U : Unicode} {text : Bytes} {n : Nat} (H : Hole text n) {s : CSt} (hlt : s.pos < n)
+theorem step_css {U : Unicode} {text : Bytes} {lo n : Nat} (H : Hole text lo n) {s : CSt} (hlt : s.pos < n)
     {k : CssS} {m : Nat} (hrr : rs text s.pos = .raw (.css k) m) (hm : m ≤ 1)
     (hm1 : m = 1 → text[s.pos]? ≠ some 0x2f) (htc : s.tagCtx = ContextHTML) (hu : s.url = false)
     (hjc : s.jsComment = 0) (hj : CssRef text s k) : StepOK U text n s := by
